@@ -472,9 +472,10 @@ class Functor(pg_object.Object, utils.Functor):
               f'new value: {arg_value!r}.'
           )
       arg_spec = signature.get_value_spec(arg_name)
-      if arg_spec and flags.is_type_check_enabled():
-        arg_value = arg_spec.apply(
-            arg_value, root_path=self.sym_path + arg_name)
+      if arg_spec:
+        if flags.is_type_check_enabled():
+          arg_value = arg_spec.apply(
+              arg_value, root_path=self.sym_path + arg_name)
         keyword_args[arg_name] = arg_value
       elif not ignore_extra_args:
         raise TypeError(
